@@ -22,7 +22,8 @@
 
    Configuration record (plain integers: the explorer works near time zero, ?nowMS= and start_ are inputs):
      c = [ N, dur, vod0, TS, loopMS, tsbd, ato, snr   as in LiveTimelineOps (ato in ms, -1 = infinite),
-           ast ]                                       availabilityStartTime in s (start_<ast>)
+           ast,                                        availabilityStartTime in s (start_<ast>)
+           fix ]                                       FALSE = the code as it is; TRUE = with proposed_fixes/X03-vod0-*.diff
    rep.Segments[j] (0-based) of the asset loader is  StartTime = vod0 + dur[1..j], EndTime = StartTime + dur[j+1]
    (the loader itself is C15's subject: taken as given).  a.LoopDurMS = loopMS.
 
@@ -92,11 +93,12 @@ LookupTime(c, time, nowMS) ==
    IF BeforeStart(c, nowMS) THEN BeforeStartRes(c, nowMS)
    ELSE LET mediaRef      == c.ast * c.TS
             wrapDur       == GoDiv(c.loopMS * c.TS, 1000)
-            nrWraps       == GoDiv(time, wrapDur)
+            nrWraps       == IF c.fix THEN GoDiv(time - SegStart(c, 0), wrapDur) ELSE GoDiv(time, wrapDur)
             wrapTime      == nrWraps * wrapDur
             timeAfterWrap == time - wrapTime
             idx           == FindSegmentIndexFromTime(c, timeAfterWrap)
-        IN IF idx = c.N THEN Res(500, 0, FALSE, FALSE, NoSeg)                                \* "no matching segment"
+        IN IF c.fix /\ time < SegStart(c, 0) THEN Res(500, 0, FALSE, FALSE, NoSeg)           \* (proposed fix only)
+           ELSE IF idx = c.N THEN Res(500, 0, FALSE, FALSE, NoSeg)                                \* "no matching segment"
            ELSE IF SegStart(c, idx) # timeAfterWrap THEN Res(500, 0, FALSE, FALSE, NoSeg)    \* "segment time mismatch"
            ELSE LET v == CheckTimeValidity(c, SegEnd(c, idx) + wrapTime + mediaRef, nowMS) IN
                 IF v[1] # 200 THEN Res(v[1], v[2], v[3], v[4], NoSeg)
@@ -129,8 +131,9 @@ FindFirstFinishedSegIdx(c, t) ==
 
 \* the block of generateTimelineEntries that is written twice (start edge / now edge): -> <<wraps, relIdx>>
 EdgeIdx(c, relMS, wraps0) ==
-   LET nl   == NormalizeToLoop(GoDiv((relMS + c.ato) * c.TS, 1000), RepDuration(c))
-       relT == nl[1]
+   LET v0   == IF c.fix THEN SegStart(c, 0) ELSE 0                                  \* (proposed fix: the loop starts at vod0)
+       nl   == NormalizeToLoop(GoDiv((relMS + c.ato) * c.TS, 1000) - v0, RepDuration(c))
+       relT == nl[1] + v0
        w1   == wraps0 + nl[2]
    IN IF relT < SegEnd(c, 0) THEN <<w1 - 1, c.N - 1>>
       ELSE LET f == FindFirstFinishedSegIdx(c, relT) IN
